@@ -19,7 +19,12 @@ import (
 	"fmt"
 	"runtime"
 	"sync"
+	"sync/atomic"
+	"time"
 )
+
+// nativeActive counts goroutines started through Go outside any execution.
+var nativeActive atomic.Int64
 
 // Abort is the sentinel panic value used to unwind every logical thread of an
 // execution that was aborted (fuel exhausted, deadlock, end of execution).  It
@@ -118,6 +123,13 @@ func (e InfraError) Error() string { return "vrt infrastructure error: " + e.Msg
 func Run(opt Options, body func()) (v Verdict) {
 	if cur != nil {
 		panic("vrt.Run: nested execution")
+	}
+	for i := 0; nativeActive.Load() > 0 && i < 2000; i++ {
+		if i < 100 {
+			runtime.Gosched()
+		} else {
+			time.Sleep(time.Millisecond)
+		}
 	}
 	e := &exec{opt: opt, limit: opt.Fuel, chans: map[any]*chanState{}}
 	if e.limit == 0 {
@@ -387,7 +399,13 @@ func (e *exec) switchAwayLocked(me *thread) {
 func Go(f func()) {
 	e := cur
 	if e == nil {
-		go f()
+		// outside an execution: a native goroutine.  Run waits for these to finish
+		// before it starts, so that they never observe an execution they do not belong to.
+		nativeActive.Add(1)
+		go func() {
+			defer nativeActive.Add(-1)
+			f()
+		}()
 		return
 	}
 	e.mu.Lock()
